@@ -1136,6 +1136,7 @@ def stack_system(prog, effects=None, resume_after_fail=False):
             if ret and not can_return[a]:
                 can_return[a] = True
                 changed = True
+    res["main_can_return"] = any(can_return[a] for a in prog.main_words.values())
     fall_off = []
     bad_sites = []
     lines = ["(set-option :produce-models true)"]
@@ -1516,10 +1517,14 @@ def addr_zero_or_len_nonzero(prog, op):
     return True
 
 
-def gen_preconditions(prog, effects=None):
+def gen_preconditions(prog, effects=None, refine=True):
     """writes t0n_<key>_pre.h into the gen dir; returns a description (for the evidence).
-    With effects: also the per-native need/peak (C05_NEED / C05_PEAK for -DOP)"""
+    With effects: also the per-native need/peak (C05_NEED / C05_PEAK for -DOP).
+    refine: use facts that need a CBMC proof of `dup` / `over` (which itself compiles against
+    this header: a first, unrefined version is written when the file does not exist yet)"""
     d = gen_dir(prog)
+    if refine and not os.path.exists(os.path.join(d, "t0n_%s_pre.h" % prog.key)):
+        gen_preconditions(prog, effects, refine=False)
     regs = regions(prog)
     lits = literal_top_sets(prog)
     desc = {"regions": regs, "literal_operands": {}, "address_natives": {}}
@@ -1578,7 +1583,7 @@ def gen_preconditions(prog, effects=None):
                     c = "(" + " || ".join(alts) + ")"
                     al.append({"literal_addresses": lv, "computed_address_sites": sum(1 for (w_, k_) in sites if literal_before(prog, w_, k_) is None)})
                 if len(ent) > 2 and ent[2] == "or0":
-                    if isinstance(ext, tuple) and addr_zero_or_len_nonzero(prog, n.op):
+                    if refine and isinstance(ext, tuple) and addr_zero_or_len_nonzero(prog, n.op):
                         c = "(C05_TOP(%d) == 0 || (C05_TOP(%d) != 0 && %s))" % (pos, ext[1], c)
                     else:
                         c = "(C05_TOP(%d) == 0 || %s)" % (pos, c)
@@ -1607,7 +1612,7 @@ def gen_preconditions(prog, effects=None):
 def ensure_pre(prog):
     pth = os.path.join(gen_dir(prog), "t0n_%s_pre.h" % prog.key)
     if not os.path.exists(pth):
-        gen_preconditions(prog)
+        gen_preconditions(prog, refine=False)
     return pth
 
 
